@@ -126,6 +126,7 @@ static void handleJob(const std::vector<const Prog*>& progs, const std::string& 
 	if (getenv("VF_DEBUG")) fprintf(stderr, "job %s: exec %llu points %llu maxpts %llu\n", kase.c_str(), (unsigned long long)st.executions, (unsigned long long)st.points, (unsigned long long)st.max_points);
 	vf::add(C_JOBS);
 	vf::note(fmt("traces:handles:%s:%d-threads", HK<H>::name(), (int)progs.size()), st.executions);
+	vf::add(C_STATES, st.distinct_states); if (st.states_saturated) vf::note("state_table_saturated");
 	vf::note(fmt("outcomes:%s", HK<H>::name()), outcomes.size());
 	if (!st.complete) vf::cap_hit("execution cap in " + kase);
 }
@@ -171,6 +172,7 @@ static void counterJob(bool atomicT, const std::vector<const Prog*>& progs, cons
 	vsched::ExploreStats st = vsched::explore(body, after, bound);
 	vf::add(C_JOBS);
 	vf::note(atomicT ? "traces:Atomic<Counter>" : "traces:AtomicCount", st.executions);
+	vf::add(C_STATES, st.distinct_states); if (st.states_saturated) vf::note("state_table_saturated");
 	if (!st.complete) vf::cap_hit("execution cap in " + kase);
 }
 
@@ -229,7 +231,6 @@ int main(int argc, char** argv) {
 		return vf::finish();
 	}
 	vf::parallel(jobs.size(), [&](uint64_t i) { if (vf::deadline_passed()) { vf::cap_hit("deadline"); return; } runJob(jobs[i], 0); });
-	vf::add(C_STATES, vf::get(C_POINTS)); // every schedule point of every execution is a visited state of the (program counters x memory) system; no dedup is applied
 	vf::setinfo("program_tables", fmt("{\"handle_programs\": %d, \"atomiccount_programs\": %d, \"atomic_counter_programs\": %d, \"jobs\": %d}", (int)HP.size(), (int)CP1.size(), (int)CP2.size(), (int)jobs.size()));
 	vf::sample("Array<Tracked>: T1: local=copy(own); own=local || T2: drop own  (main drops its handle concurrently) - all schedules");
 	vf::sample("Atomic<Counter>: T1: a += 3; a *= 1 || T2: --a; a -= 2 with Counter yielding between its read and write");
